@@ -13,7 +13,7 @@ import (
 func init() {
 	register("C05", PropCheck{
 		Title:      "Loaded symbols live exactly as long as their stack level",
-		Explain:    "Structural clauses: (R1) in the LOAD handler the external-code invoker is only reached on the error edge of Memory.Get(decoded symbol) - at most one call while the symbol is visible; (R2) Add receives the decoded symbol, the invoker's result and the decoded size; Update in the RELOAD handler receives the decoded symbol and the invoker's result; (R3) in the library every State.Down is accompanied by Memory.Push and every State.Up by Memory.Pop on every path (same function), and no other frame-count change (Memory.Reset) happens in vm/engine; (R4) every opcode handler that moves calls Vm.Reset (drops MAPs and menu) on every success path after the move; (R5) the RELOAD handler runs invoker -> Update -> Page.Map on the same symbol on every success path; (R6) the capacity oracle's ambiguous 0 result is interpreted as failure only where len(value) > 0 is known.",
+		Explain:    "Structural clauses: (R1) in the LOAD handler the external-code invoker is only reached on the error edge of Memory.Get(decoded symbol) - at most one call while the symbol is visible; (R2) Add receives the decoded symbol, the invoker's result and the decoded size; Update in the RELOAD handler receives the decoded symbol and the invoker's result; (R3) in the library every State.Down is accompanied by Memory.Push and every State.Up by Memory.Pop on every path (same function), and no other frame-count change (Memory.Reset) happens in vm/engine; (R4) every opcode handler that moves calls Vm.Reset (drops MAPs and menu) on every success path after the move; (R5) the RELOAD handler runs invoker -> Update -> Page.Map on the same symbol on every success path; (R6) the capacity oracle's ambiguous 0 result is interpreted as failure only where len(value) > 0 is known; (R3, addition) in the engine's reset State.Restart comes only after the level-by-level unwind (shared with C08 R2 / C20 R2); (R8) Page.Map stores the cache's current value for the symbol on every success path, so RELOAD's re-map refreshes what the page shows (added after seeded change C05-E, an early return for an already mapped symbol).",
 		NotDecided: "that values are gone after ascent for every history (follows from R3 with C09 R6 for the frame release); the limit comparisons themselves (C09 R1-R3); what the external function returns.",
 		Run:        runC05,
 	})
@@ -34,6 +34,7 @@ func runC05(w *core.World, r *core.Report) {
 	r.Rule("R4", "every moving handler calls Vm.Reset on every success path after the move")
 	r.Rule("R5", "RELOAD: invoker -> Update -> Page.Map on the same symbol")
 	r.Rule("R6", "capacity oracle result 0 means failure only under len(value) > 0")
+	r.Rule("R8", "Page.Map stores the cache's current value for the symbol on every success path (RELOAD's re-map refreshes the page)")
 	r.Rule("R7", "a result larger than its limit is never stored: C09 R1/R2 (no truncated length in a comparison; limit and capacity tests on every success path of Add/Update)")
 
 	inv := externalInvokers(w)
@@ -147,6 +148,34 @@ func runC05(w *core.World, r *core.Report) {
 
 	// ---- R3 pairing ---------------------------------------------------------------------------
 	checkPairing(w, r, "R3")
+	if rf := resolveEngineRoles(w).ResetFn; rf != nil {
+		checkRestartAfterUnwind(w, r, rf, "R3")
+	}
+	// ---- R8 the page's snapshot of a mapped symbol is always the cache's current value ---------
+	if mp := anchor(w, r, "render", "(*Page).Map"); mp != nil {
+		cut := core.NewCut()
+		for _, in := range allInstrs(mp) {
+			mu, ok := in.(*ssa.MapUpdate)
+			if !ok {
+				continue
+			}
+			if _, f, ok := core.LoadedField(mu.Map); !ok || f != "cacheMap" {
+				continue
+			}
+			fromGet := false
+			for _, src := range core.Sources(mu.Value) {
+				if c, i, ok := core.ExtractOf(src); ok && i == 0 && core.IsCallTo(c, "cache.Memory.Get", "cache.(*Cache).Get") {
+					fromGet = true
+				}
+			}
+			if fromGet {
+				cut.AddInstr(mu)
+			}
+		}
+		hit, path := core.Reach(core.Entry(mp), isSuccessReturnPred(mp), cut)
+		r.Check(hit == nil && len(cut.Instrs) > 0, "R8", "render.(*Page).Map: snapshot refreshed on every success path", mp.Pos(), "cacheMap[key] = Memory.Get(key) before every success return",
+			"Map can succeed without storing the cache's current value: after RELOAD the page keeps showing the replaced content: "+w.PathString(path))
+	}
 
 	// ---- R4 reset after every move ------------------------------------------------------------
 	disp := navDispatchers(w)
